@@ -15,6 +15,10 @@
 //!   V k            which variant's router-id template labels router k's series in GET /metrics: t:<v>
 //!   G k            how many different ingress ids router k has been given so far: g:<n>
 //!   F s            (first op only) the start-up configuration names a Roto script of variant s
+//!   FH             the next load of the configuration - the start-up if FH stands among the leading F / K ops, else the next
+//!                  H / L - happens while a thread of the harness HOLDS the mutex around the compiled script (the Arc<Mutex<..>>
+//!                  every component is handed; guarded hook Manager::verif_roto_compiled) and lets go HOLD_MS later: the units
+//!                  started by that load fetch their filter function from that mutex when they start. Nothing in the model.
 //!   W s [1]        the operator edits the script: variant s from now on (0: `roto_script` is taken out of the configuration);
 //!                  with 1 under a new file name, which the configuration then names. Takes effect with the next H / L.
 //!   Y y            the operator edits the configuration: second unit `rib2` absent (0) / a rib sourcing the bmp unit,
@@ -61,6 +65,8 @@ const UNIT2: &str = "bmp-in2";
 const UNITS: [&str; 2] = [UNIT, UNIT2];
 const LISTS: [&str; 2] = ["/routers/", "/routers2/"];
 const STALL_MS: u64 = 3000;
+/// how long the harness's thread holds the compiled script's mutex around a load (op FH)
+const HOLD_MS: u64 = 200;
 /// a prefix query of a vRIB (trigger to the physical RIB, result back through the chain) normally takes a millisecond
 const VRIB_STALL_MS: u64 = 1500;
 const MAX_VRIBS: u32 = 3;
@@ -199,6 +205,7 @@ pub struct World {
     desired: Desired,
     bgp_port: u16,
     wedged: bool,                    // a request was never answered: Manager::terminate is not tried at the end of the case
+    hold_next: bool,                 // op FH: the next reload happens while the compiled script's mutex is held
 }
 
 fn config_text(bmp_port: u16, http_port: u16, variant: usize, d: &Desired, bgp_port: u16, bmp2_port: Option<u16>) -> String {
@@ -249,11 +256,26 @@ fn config_file(dir: &Option<PathBuf>, text: String) -> ConfigFile {
     }
 }
 
+/// Something else that holds the mutex around the compiled script: takes it now (returns once it has it), lets go
+/// `ms` later. The type behind the mutex is rotonda's business (roto::Compiled).
+fn hold_script<T: Send + 'static>(c: Option<std::sync::Arc<std::sync::Mutex<T>>>, ms: u64) -> Option<std::thread::JoinHandle<()>> {
+    let c = c?;
+    let (tx, rx) = std::sync::mpsc::channel();
+    let h = std::thread::spawn(move || {
+        let g = c.lock();
+        let _ = tx.send(());
+        std::thread::sleep(Duration::from_millis(ms));
+        drop(g);
+    });
+    let _ = rx.recv();
+    Some(h)
+}
+
 impl World {
     /// What src/main.rs does: load the config through the manager, start the HTTP server, spawn the units.
-    pub fn start(files: bool, script: u32) -> World { World::start_with(files, script, 0, false) }
+    pub fn start(files: bool, script: u32) -> World { World::start_with(files, script, 0, false, false) }
 
-    fn start_with(files: bool, script: u32, vribs: u32, two: bool) -> World {
+    fn start_with(files: bool, script: u32, vribs: u32, two: bool, hold: bool) -> World {
         let ports = pick_ports(6);
         if std::env::var("VH_E2E_LOG").is_ok() { let _ = Config::init(); }
         let desired = Desired { script, file_no: 0, rib2: 0, vribs, ingress: true };
@@ -270,13 +292,15 @@ impl World {
             let file = config_file(&dir, config_text(ports[0], ports[1], 0, &desired, ports[4], if two { Some(ports[5]) } else { None }));
             let (_src, mut config) = match Config::from_config_file(file, &mut mgr) { Ok(x) => x, Err(_) => panic!("config rejected") };
             if config.http.run(mgr.metrics(), mgr.http_resources()).is_err() { panic!("http server did not start"); }
+            let holder = if hold { hold_script(mgr.verif_roto_compiled(), HOLD_MS) } else { None };
             mgr.spawn(&mut config);
+            if let Some(h) = holder { let _ = h.join(); }
             mgr
         };
         let mut w = World {
             rt: Some(rt), mgr, bmp_port: ports[0], http_port: ports[1], spare_ports: ports[2..4].to_vec(),
             conns: BTreeMap::new(), accepted: [0; 2], lost: [0; 2], binds: [1; 2], two, bmp2_port: ports[5], running: [true, two], gen: 0, reloaded: false, variant: 0, ids_of: BTreeMap::new(), rids: BTreeMap::new(), notes: vec![], stalled: None,
-            dir, desired, bgp_port: ports[4], wedged: false,
+            dir, desired, bgp_port: ports[4], wedged: false, hold_next: false,
         };
         // the pipeline is up when the bmp-tcp-in unit has bound its listener (units start together, after their waitpoint)
         w.wait_metrics("listener bound", |t| metric_sum(t, "bmp_tcp_in_listener_bound_count_total", &[("component", UNIT)]) == Some(1));
@@ -524,7 +548,9 @@ impl World {
             let _g = self.rt.as_ref().unwrap().enter();
             let file = config_file(&self.dir, config_text(self.bmp_port, self.http_port, self.variant, &self.desired, self.bgp_port, if self.two { Some(self.bmp2_port) } else { None }));
             let (_src, mut config) = match Config::from_config_file(file, &mut self.mgr) { Ok(x) => x, Err(_) => panic!("config rejected") };
+            let holder = if std::mem::take(&mut self.hold_next) { hold_script(self.mgr.verif_roto_compiled(), HOLD_MS) } else { None };
             self.mgr.spawn(&mut config);
+            if let Some(h) = holder { let _ = h.join(); }
         }
         self.running[0] = self.desired.ingress;
         if self.dir.is_some() {
@@ -624,28 +650,30 @@ impl World {
 
 /// (the case keeps files, start-up script, start-up number of vRIBs, how many leading ops describe the start-up configuration,
 /// the case has a second ingress unit)
-fn startup_of(all: &[Vec<&str>]) -> (bool, u32, u32, usize, bool) {
+fn startup_of(all: &[Vec<&str>]) -> (bool, u32, u32, usize, bool, bool) {
     let two = all.iter().any(|o| matches!(o[0], "J" | "JL"));
-    let files = two || all.iter().any(|o| matches!(o[0], "F" | "W" | "Y" | "K"));
+    let files = two || all.iter().any(|o| matches!(o[0], "F" | "FH" | "W" | "Y" | "K"));
     let (mut script, mut vribs, mut lead) = (0, 0, 0);
+    let mut hold = false;
     for (i, o) in all.iter().enumerate() {
         match o[0] {
             "F" if i == 0 => script = o[1].parse::<u32>().unwrap(),
+            "FH" => hold = true,
             "K" => vribs = o[1].parse::<u32>().unwrap().min(MAX_VRIBS),
             _ => break,
         }
         lead = i + 1;
     }
-    (files, script, vribs, lead, two)
+    (files, script, vribs, lead, two, hold)
 }
 
 pub fn run_case(line: &str) -> String {
     let all = ops(line);
-    let (files, startup, vribs, _lead, two) = startup_of(&all);
-    let mut w = World::start_with(files, startup, vribs, two);
+    let (files, startup, vribs, lead, two, hold) = startup_of(&all);
+    let mut w = World::start_with(files, startup, vribs, two, hold);
     let mut out: Vec<String> = vec![];
     let mut ended = false;
-    for op in all {
+    for (idx, op) in all.into_iter().enumerate() {
         let n = |i: usize| op[i].parse::<u32>().unwrap();
         if ended { out.push("x".into()); continue; }
         match op[0] {
@@ -707,6 +735,11 @@ pub fn run_case(line: &str) -> String {
                 });
             }
             "O" | "A" | "Z" | "F" => out.push("-".into()),
+            "FH" => {
+                // among the leading ops it described the start-up; later it arms the next reload
+                if idx >= lead { w.hold_next = true; }
+                out.push("-".into());
+            }
             "W" => {
                 w.edit_script(n(1), op.get(2).map(|x| *x == "1").unwrap_or(false));
                 out.push("-".into());
@@ -796,8 +829,8 @@ pub fn special(name: &str, args: &[String]) -> bool {
     if name == "e2e-raw" {
         // debugging aid: vh e2e-raw '<case>' <path> : run the case, then print one HTTP resource raw
         let all = ops(&args[0]);
-        let (files, startup, vribs, _lead, two) = startup_of(&all);
-        let mut w = World::start_with(files, startup, vribs, two);
+        let (files, startup, vribs, _lead, two, hold) = startup_of(&all);
+        let mut w = World::start_with(files, startup, vribs, two, hold);
         for op in all {
             let n = |i: usize| op[i].parse::<u32>().unwrap();
             match op[0] {
